@@ -12,10 +12,11 @@ import Oas3Model.Driver.Cli
 import Oas3Model.Driver.Defaults
 import Oas3Model.Driver.Enum
 import Oas3Model.Driver.Cache
+import Oas3Model.Driver.Codec
 import Oas3Model.Driver.Discr
-import Oas3Model.Driver.Valid
 import Oas3Model.Driver.Flags
 import Oas3Model.Driver.Inject
+import Oas3Model.Driver.Valid
 open Lean Oas3.Driver
 
 def allOps : List (String × Handler) := List.flatten [
@@ -32,10 +33,11 @@ def allOps : List (String × Handler) := List.flatten [
   Oas3.Driver.Defaults.ops,
   Oas3.Driver.Enum.ops,
   Oas3.Driver.Cache.ops,
+  Oas3.Driver.Codec.ops,
   Oas3.Driver.Discr.ops,
-  Oas3.Driver.Valid.ops,
   Oas3.Driver.Flags.ops,
   Oas3.Driver.Inject.ops,
+  Oas3.Driver.Valid.ops,
   []]
 
 def handleLine (line : String) : String :=
